@@ -171,6 +171,7 @@ func init() { families["reg"] = regFamily }
 
 // ---- C20: conversion of receiver, arguments and results ----
 type convCase struct {
+	Data []tpair  `json:"data"`
 	Src  string   `json:"src"`
 	Recv string   `json:"recv"`
 	Args []string `json:"args"`
@@ -290,7 +291,12 @@ func convFamily(raw json.RawMessage) Result {
 	}
 	res := Result{ID: c.Src, Status: "ok", Tags: c.Tags, Stats: map[string]int{"nontrivial": 1}}
 	convLog.recv, convLog.args = "<not called>", nil
-	_, err := textwire.EvaluateString(expandMarkers(c.Src), nil)
+	data, derr := goData(c.Data)
+	if derr != nil {
+		res.Status, res.Msg = "skip", derr.Error()
+		return res
+	}
+	_, err := textwire.EvaluateString(expandMarkers(c.Src), data)
 	if err != nil {
 		res.Status, res.Kind, res.Msg = "viol", "wrong-error", "calling a registered function failed: "+firstLines(err.Error(), 2)
 		return res
